@@ -326,6 +326,9 @@ func main() {
 		if f.Replay != "" && sc.Name != only.Script {
 			continue
 		}
+		if f.Replay == "" || only.Axis == "clock" {
+			clockAxis(f, r, sc, &only, &item)
+		}
 		if f.Replay == "" || only.Axis == "maporder" {
 			mapOrderAxis(f, r, sc, &only, &item)
 		}
